@@ -58,7 +58,7 @@ def coq_ctx(c):
 def explore(ctx):
     tier, seed = ctx["tier"], ctx["seed"]
     rng = random.Random(seed)
-    n = 400 if tier == "thorough" else 32
+    n = 160 if tier == "thorough" else 32
     cs = []
     for i in range(n):
         s = CC.gen(rng, "ps" if i % 2 else "bbs", kinds=["rev", "mem", "eq", "comm", "range", "venc"])
@@ -97,7 +97,7 @@ def explore(ctx):
         for m in r["ctx"]:
             terms.append(coq_ctx(m["model"]))
             refs.append((s, m, r))
-    model = C.run_model("C04", HEADER, terms, shard_size=max(20, len(terms) // 48 + 1), timeout=1800)
+    model = C.run_model("C04", HEADER, terms, shard_size=60, timeout=3000)
     orig_fp = {}
     distinct = set()
     for (s, m, r), fp in zip(refs, model):
